@@ -11,6 +11,7 @@ import (
 	gcbor "github.com/blinklabs-io/gouroboros/cbor"
 	"github.com/blinklabs-io/gouroboros/ledger"
 	"github.com/blinklabs-io/gouroboros/ledger/common"
+	"github.com/blinklabs-io/gouroboros/ledger/dijkstra"
 	"pgregory.net/rapid"
 
 	"verif/harness/internal/evi"
@@ -211,6 +212,29 @@ func (c *c01) txAgainst(where string, tx common.Transaction, v View, bodyR, witR
 		if crN := bodyN.MapGet(16); crN != nil {
 			if cr := tx.CollateralReturn(); cr != nil {
 				c.eq(where+".CollateralReturn.Cbor", cr.Cbor(), buf(crN))
+			}
+		}
+	}
+	// Dijkstra sub-transactions (body key 23: set of [body, witness set, aux/nil])
+	if dtx, ok := tx.(*dijkstra.DijkstraTransaction); ok {
+		if sn := bodyN.MapGet(23); sn != nil {
+			if sn.Kind == xcbor.Tag {
+				sn = sn.Items[0]
+			}
+			subs := dtx.Body.TxSubTransactions.Items()
+			c.cmp++
+			if len(subs) != len(sn.Items) {
+				c.fail(where+".SubTransactions.count", fmt.Sprintf("library reports %d sub-transactions, the body carries %d", len(subs), len(sn.Items)), nil, nil, "")
+			} else {
+				for j := range subs {
+					in := sn.Items[j]
+					c.rec.Class("dijkstra_subtx_checked")
+					c.eq(where+".SubTx.Cbor", subs[j].Cbor(), buf(in))
+					c.eq(where+".SubTx.Body.Cbor", subs[j].Body.Cbor(), buf(in.Items[0]))
+					c.eqHash(where+".SubTx.Body.Id", subs[j].Body.Id(), buf(in.Items[0]))
+					c.eq(where+".SubTx.WitnessSet.Cbor", subs[j].WitnessSet.Cbor(), buf(in.Items[1]))
+					c.reencode(where+".SubTx.reencode", &subs[j], buf(in))
+				}
 			}
 		}
 	}
